@@ -62,8 +62,12 @@ type world struct {
 
 const probeCapacity = 1000000
 
+// initialClock is the protocol time at which newWorld starts its server: a
+// value ≥ 4000 makes the very first start catch up through device-less weeks.
+var initialClock uint32
+
 func newWorld(b run.Batch, r *ev.Result, rng *rand.Rand, name string) (*world, error) {
-	drv.SetClock(0)
+	drv.SetClock(initialClock)
 	drv.GateRotation(true)
 	drv.GateImpact(true)
 	dw, err := drv.NewWorld(filepath.Join(b.Dir, name), rng)
@@ -412,8 +416,7 @@ func (w *world) deliver(d dg, i int) {
 	run.Op("datagram class=%s now=%d socket=%v bytes=%s", d.class, now, viaSocket, clip(d.b))
 	if viaSocket {
 		if err := w.SendUDP(d.b); err != nil {
-			w.r.Inconc("socket delivery: " + err.Error())
-			w.failed = true
+			w.udpFailure(fmt.Sprintf("datagram class=%s len=%d now=%d", d.class, len(d.b), now), err)
 			return
 		}
 		w.r.Count("delivery.socket", 1)
@@ -430,6 +433,71 @@ func (w *world) deliver(d dg, i int) {
 	if i == 7 {
 		w.r.Sample(map[string]interface{}{"kind": "datagram", "class": d.class, "now": now, "offset": w.offset(), "socket": viaSocket, "bytes": clip(d.b)})
 	}
+}
+
+// udpFailure: a datagram sent through the real socket was not taken off it.
+// Loss on loopback would be inconclusive; the listener's own state decides:
+// in two dumps 3 s apart the listener goroutine is either gone or parked
+// somewhere else than in its socket read while a datagram is waiting – it
+// will not come back by itself.
+func listenerState(d string) string {
+	for _, blk := range strings.Split(d, "\n\n") {
+		if strings.Contains(blk, "threadedListenUDP") {
+			if strings.Contains(blk, "ReadFromUDP") || strings.Contains(blk, "readFrom") {
+				return "reading"
+			}
+			hdr := strings.SplitN(strings.TrimLeft(blk, "\n"), "\n", 2)[0]
+			return "parked: " + hdr
+		}
+	}
+	return "gone"
+}
+
+func (w *world) udpFailure(what string, err error) {
+	w.failed = true
+	d1 := stacks()
+	s1 := listenerState(d1)
+	time.Sleep(3 * time.Second)
+	d2 := stacks()
+	s2 := listenerState(d2)
+	if s1 != "reading" && s1 == s2 {
+		w.closeDead = true // a listener that never returns to its loop cannot be stopped either
+		w.r.Violationf("udp-listener-stalled", map[string]interface{}{"input": what, "batch": w.b, "listener": s2, "goroutines": dumpExcerpt(d2)},
+			"a datagram sent to the report socket was not processed (%v) and in two goroutine dumps 3 s apart the UDP listener goroutine is %q instead of reading its socket: no report is processed any more (input: %s)", err, s2, what)
+		return
+	}
+	w.r.Inconc(fmt.Sprintf("socket delivery: %v (listener state %q / %q)", err, s1, s2))
+}
+
+// fdCount is the number of open descriptors of this process (server and
+// harness share it).
+func fdCount() int {
+	ents, err := os.ReadDir("/proc/self/fd")
+	if err != nil {
+		return -1
+	}
+	return len(ents) - 1 // minus the handle of the listing itself
+}
+
+// settledFdCount waits until the descriptor count has stopped changing (15
+// equal readings 100 ms apart, at most 20 s) and returns it.
+func (w *world) settledFdCount() (int, bool) {
+	w.hc.CloseIdleConnections()
+	churnClient.CloseIdleConnections()
+	last, same := fdCount(), 0
+	for i := 0; i < 200; i++ {
+		time.Sleep(100 * time.Millisecond)
+		n := fdCount()
+		if n == last {
+			same++
+			if same >= 15 {
+				return n, true
+			}
+		} else {
+			last, same = n, 0
+		}
+	}
+	return last, false
 }
 
 // ---------------------------------------------------------------- raw connections
